@@ -5,4 +5,33 @@ EXTENDS SeqAlloc, Json
 BehaviourExport ==
   (Len(hist) = MaxSteps \/ (Quiescent /\ AllHeld = {})) =>
      PrintT(<<"BEH", ToJson([grow |-> grow, na |-> Cardinality(Allocs), steps |-> hist])>>)
+
+(* Simulation: TLC picks uniformly among SUCCESSOR STATES, so with Nxt the actions with many argument choices
+   (GiveBack of any held number, GTBegin with any floor, on any allocator) swamp the rare ones (in-batch
+   nextSequenceGreaterThan, idle release).  SimNext draws the arguments with RandomElement from the set of ENABLED
+   arguments of each action kind: one successor per kind.  Stop only in the second half (a stopped allocator is
+   dead; the harness stops everything at the end anyway). *)
+NextArgs    == {n \in Allocs : CanCall(n)}
+GTLastArgs  == {a \in Allocs \X Floors : CanCall(a[1]) /\ a[2] + 1 <= last[a[1]]}
+GTBatchArgs == {a \in Allocs \X Floors : CanCall(a[1]) /\ last[a[1]] < a[2] + 1 /\ a[2] + 1 <= max[a[1]]}
+GTBeginArgs == {a \in Allocs \X Floors : CanCall(a[1]) /\ a[2] + 1 > max[a[1]] /\ BeginFits(a[1], a[2])}
+FinishArgs  == {n \in Allocs : pc[n].st = "got"}
+PendArgs    == UNION {{<<n, p>> : p \in pend[n]} : n \in Allocs}
+GiveArgs    == UNION {{<<n, s>> : s \in held[n]} : n \in Allocs}
+IdleArgs    == {n \in Allocs : CanCall(n) /\ last[n] < max[n]}
+One(S) == IF S = {} THEN {} ELSE {RandomElement(S)}       \* bound once by the quantifier below
+Coin == RandomElement({TRUE, FALSE})
+SimNext ==                                                   \* weights: Next and in-batch GT doubled (they build and use
+  \/ \E n \in One(NextArgs) : Next(n)                          \* batch windows), GTBegin (destroys the window) and GiveBack halved
+  \/ \E n \in One(NextArgs) : Next(n)
+  \/ \E a \in One(GTLastArgs) : GTLast(a[1], a[2])
+  \/ \E a \in One(GTBatchArgs) : GTBatch(a[1], a[2])
+  \/ \E a \in One(GTBatchArgs) : GTBatch(a[1], a[2])
+  \/ (Coin /\ \E a \in One(GTBeginArgs) : GTBegin(a[1], a[2]))
+  \/ \E n \in One(FinishArgs) : GTFinish(n)
+  \/ \E a \in One(PendArgs) : PendRel(a[1], a[2])
+  \/ (Coin /\ \E a \in One(GiveArgs) : GiveBack(a[1], a[2]))
+  \/ \E n \in One(IdleArgs) : IdleRel(n)
+  \/ (2 * Len(hist) >= MaxSteps /\ \E n \in One(NextArgs) : Stop(n))
+SimSpec == Init /\ [][SimNext]_vars
 =============================================================================
